@@ -151,17 +151,40 @@ def _main(P, tier, seed):
         with concurrent.futures.ThreadPoolExecutor(max_workers=4) as ex:
             futs = {k: ex.submit(run_impl, P.IMPL, bd[k], cases, getattr(P, "IMPL_JOBS", 6),
                                  getattr(P, "IMPL_TIMEOUT", 900)) for k in live}
-            mfut = ex.submit(coqrun.run_model, P.COQ_IMPORTS, P.COQ_FN, [P.model_input(c) if hasattr(P, "model_input") else c["tree"] for c in cases],
-                             getattr(P, "SHARD", 250))
+            per_build = hasattr(P, "model_input_for")     # model input depends on what the build did (flush oracle)
+            mfut = None
+            if not per_build:
+                mfut = ex.submit(coqrun.run_model, P.COQ_IMPORTS, P.COQ_FN,
+                                 [P.model_input(c) if hasattr(P, "model_input") else c["tree"] for c in cases],
+                                 getattr(P, "SHARD", 250))
+            for k in live:
+                impl_outs[k] = futs[k].result()
             model_err = None
+            model_by = {}          # (case idx, build) -> model output
             try:
-                model_outs = mfut.result()
+                if per_build:
+                    texts, index = [], {}
+                    for k in live:
+                        for c, io in zip(cases, impl_outs[k]):
+                            if isinstance(io, dict) and ("HarnessCrash" in io or "Hang" in io):
+                                continue
+                            t = P.model_input_for(c, io, k)
+                            if t not in index:
+                                index[t] = len(texts)
+                                texts.append(t)
+                            model_by[(c["idx"], k)] = index[t]
+                    outs = coqrun.run_model(P.COQ_IMPORTS, P.COQ_FN, texts, getattr(P, "SHARD", 100))
+                    model_by = {kk: outs[v] for kk, v in model_by.items()}
+                    model_outs = True
+                else:
+                    model_outs = mfut.result()
+                    for k in live:
+                        for c in cases:
+                            model_by[(c["idx"], k)] = model_outs[c["idx"]]
             except Exception as e:  # model does not build / run: correspondence cannot be checked
                 model_outs = None
                 model_err = str(e)
                 print("[%s] MODEL-ERROR: %s" % (prop, model_err[-1200:]))
-            for k in live:
-                impl_outs[k] = futs[k].result()
 
         cmp_fn = getattr(P, "compare", None) or (lambda c, m, i: None if m == i else "model and implementation outputs differ")
         for k in live:
@@ -171,10 +194,10 @@ def _main(P, tier, seed):
                     continue
                 for f in P.monitors(c, io, k):
                     findings.append(dict(case=c, build=k, out=io, **f))
-                if model_outs is not None:
-                    d = cmp_fn(c, model_outs[c["idx"]], io)
+                if model_outs is not None and (c["idx"], k) in model_by:
+                    d = cmp_fn(c, model_by[(c["idx"], k)], io)
                     if d:
-                        diffs.append(dict(case=c, build=k, out=io, model=model_outs[c["idx"]], msg=d))
+                        diffs.append(dict(case=c, build=k, out=io, model=model_by[(c["idx"], k)], msg=d))
 
         # 3. a crashed/hung worker is a failing input for the implementation (hang => C03-style) only if
         #    the property module says so; otherwise it is an infrastructure error
@@ -288,7 +311,7 @@ def _main(P, tier, seed):
     nontriv = [c for c in distinct.values() if P.nontrivial(c)]
     nvalid = sum(len(v) for v in impl_outs.values()) if model_outs is not None else 0
     samples = [dict(case=c["tree"], meta=c.get("meta"), implementation_output={k: impl_outs[k][c["idx"]] for k in impl_outs},
-                    model_output=(model_outs[c["idx"]] if model_outs else None)) for c in (nontriv[:2] or cases[:2])]
+                    model_output=next((model_by[kk] for kk in model_by if kk[0] == c["idx"]), None)) for c in (nontriv[:2] or cases[:2])]
     cov = dict(
         obligations=max(1, proof["obligations"]), discharged=proof["discharged"],
         checker_cmd="make -C coq theories/props/%s.vo (coqc 8.16.1, full .vo build; Print Assumptions parsed from this run)" % prop,
